@@ -79,6 +79,10 @@ add("C10", "hypothesis-generated (composition, temperature) points over the matr
     "Generated search over Ni-Cr-Al / Ni-Cr / Ni-Al fcc, Fe-Cr-Ni fcc and bcc, Al-Zr fcc, Al-Mg-Si fcc and Cu-Ti fcc: where the global equilibrium is the matrix phase alone, the chemical-potential derivative matrix equals central finite differences of the local-equilibrium chemical potentials (1e-4), is symmetric and positive definite; the interdiffusivity has real positive eigenvalues; tracer diffusivities are positive and equal R*T*mobility obtained through the diffusion module; binaries satisfy the Darken relation with the finite-difference curvature; substitutional rows of the mobility matrix sum to zero per column.",
     "pycalphad local/global equilibria trusted; points outside the single-phase field or with failed equilibria are counted and skipped; Al-Zr (diffusivity parameters, no mobility model) only on curvature/positivity clauses")
 
+add("C11", "metamorphic: hypothesis-generated configurations evaluated under a permutation of the solute list (shipped ternary databases, one object per order) or of the phase list (toy binary runs), outputs compared after applying the permutation",
+    "Phase order: toy binary scenarios with 2-3 phases run under a non-identity permutation of the phase list: same number of steps, same time grid and per-phase histories merely permuted. Element order: Ni-Cr-Al (gamma prime) and Al-Mg-Si (five phases) queries (driving force, nucleus composition, interdiffusivity, tracer diffusivity, curvature factors), Ni-Cr-Al / Fe-Cr-Ni per-phase mobilities, phase fractions, chemical potentials and all five homogenization rules, and short Ni-Cr-Al diffusion-couple runs, each with both solute orders.",
+    "toy backend for phase order (deterministic); for the order/disorder gamma prime system driving force/compositions are compared at 5e-2 / 1e-2 (pycalphad's Newton path depends on the order of the conditions)")
+
 NOT_YET = {"C09": "only the composition-cache (HashTable) clause is built so far; thermodynamic query purity on the shipped databases is pending - claimed once complete"}
 
 ALL = ["C%02d" % i for i in range(1, 21)]
